@@ -267,6 +267,12 @@ func genC20(t *rapid.T, tier Tier) C20Case {
 		if depth < maxDepth && budget > 1 && rapid.IntRange(0, 2).Draw(t, "cexprstack") == 0 {
 			e := genStack(depth + 1)
 			n.Expr = &e
+		} else if depth < maxDepth && budget > 2 && rapid.IntRange(0, 5).Draw(t, "cexprcond") == 0 {
+			// a Condition holding a Condition (holding a stack)
+			in := genStack(depth + 2)
+			e := Node{T: "cond", KW: "inner", Op: OpEq(), Expr: &in}
+			budget--
+			n.Expr = &e
 		} else {
 			e := genLeaf()
 			n.Expr = &e
